@@ -52,19 +52,29 @@ func ReaderParamEncoder(addr string) jsonrpc.Option {
 
 type waitReadCloser struct {
 	io.ReadCloser
-	wait chan struct{}
+	wait     chan struct{}
+	waitOnce sync.Once
+
+	// readErr is the first error returned by Read (usually io.EOF). Once it
+	// was returned the upload request completes and net/http closes the
+	// body, so the error is kept and returned on all subsequent reads.
+	readErr error
 }
 
 func (w *waitReadCloser) Read(p []byte) (int, error) {
+	if w.readErr != nil {
+		return 0, w.readErr
+	}
 	n, err := w.ReadCloser.Read(p)
 	if err != nil {
-		close(w.wait)
+		w.readErr = err
+		w.waitOnce.Do(func() { close(w.wait) })
 	}
 	return n, err
 }
 
 func (w *waitReadCloser) Close() error {
-	close(w.wait)
+	w.waitOnce.Do(func() { close(w.wait) })
 	return w.ReadCloser.Close()
 }
 
